@@ -32,6 +32,7 @@ func checkC04(c *Ctx, r *Report) {
 	c04Source(c, r, a)
 	c04Narrow(c, r, "C04.NARROW", "CoerceIn", 6)
 	c04Input(c, r)
+	importRules(c, r, "C10", "C04.FDEF", "the argument declarations a value is coerced against are those of the field definition looked up in the container type of this evaluation (C10.FIELD): a definition taken from a type remembered on the parsed field coerces Int64-declared values for an Int argument", "C10.FIELD~lookup uses the container type")
 }
 
 func c04Gate(c *Ctx, r *Report, a *Anchors) {
